@@ -546,6 +546,24 @@ func webPart(n int) {
 		})
 		run.Count("fresh" + rq)
 	}
+	// the reference answers are computed in this process, one fresh session each, in the order of the list: asked again
+	// in the opposite order they must be the same (a process-wide memo that one request fills and another reads would
+	// otherwise poison the references exactly as it poisons the sessions compared with them)
+	for i := len(requests) - 1; i >= 0; i-- {
+		rq := requests[i]
+		if rq == "/download" {
+			continue
+		}
+		withServer(func(w *webServer) {
+			code, body, pv := w.do(rq)
+			if pv != nil {
+				return
+			}
+			if want := fresh[rq]; code != want.code || !bytes.Equal(body, want.body) {
+				run.Violate("web", "web-leak:process-wide:"+rq, fmt.Sprintf("%s in a fresh session of this process, asked after the other requests of the list instead of before them: status %d vs %d; %s", rq, code, want.code, firstDiff(body, want.body)), rq, nil)
+			}
+		})
+	}
 	r := vlib.NewRand(run.Seed + 21)
 	check := func(hist []string, rq string, got resp, mode string) {
 		want := fresh[rq]
